@@ -90,7 +90,7 @@ fn sync_states(cfg: &Cfg) {
             hs.push(spawn(move || { w1.sync(&q1, "Sblk", Body::blocking(&bg1)); }));
         }
         5 => {
-            w.future_desync(&q, "FD", Body::gated(&g)).detach();
+            w.future_desync(&q, "FD", Body { gate: Some(g.clone()), self_wake: cfg.opt("selfwake", 0) == 1, ..Body::default() }).detach();
         }
         7 => {
             let (w1, q1, g1) = (w.clone(), q.clone(), g.clone());
@@ -156,21 +156,23 @@ fn wake_ctx(cfg: &Cfg) {
     let q = mkobj(&w, cfg);
     let g = if wake == 2 { Gate::new_keep_stale() } else { Gate::new() };
     let mut hs = vec![];
+    // (`selfwake`=1: the operation also wakes its own waker during its first poll, before it suspends on the gate)
+    let gated = |g: &Gate| Body { gate: Some(g.clone()), self_wake: cfg.opt("selfwake", 0) == 1, ..Body::default() };
     // the gated operation
     match (kind, ctx) {
         (0, 2) => {
-            let (w1, q1, g1) = (w.clone(), q.clone(), g.clone());
-            hs.push(spawn(move || w1.future_desync(&q1, "FD", Body::gated(&g1)).wait()));
+            let (w1, q1, gated1) = (w.clone(), q.clone(), gated(&g));
+            hs.push(spawn(move || w1.future_desync(&q1, "FD", gated1).wait()));
         }
-        (0, _) => w.future_desync(&q, "FD", Body::gated(&g)).detach(),
+        (0, _) => w.future_desync(&q, "FD", gated(&g)).detach(),
         (1, 2) => {
             let (w1, q1, g1) = (w.clone(), q.clone(), g.clone());
             hs.push(spawn(move || w1.after(&q1, "AF", &g1, Body::plain()).wait()));
         }
         (1, _) => w.after(&q, "AF", &g, Body::plain()).detach(),
         (2, _) => {
-            let (w1, q1, g1) = (w.clone(), q.clone(), g.clone());
-            hs.push(spawn(move || w1.future_sync(&q1, "FS", Body::gated(&g1)).wait()));
+            let (w1, q1, gated1) = (w.clone(), q.clone(), gated(&g));
+            hs.push(spawn(move || w1.future_sync(&q1, "FS", gated1).wait()));
         }
         _ => panic!("bad kind"),
     }
@@ -216,7 +218,9 @@ fn fd_result(cfg: &Cfg) {
     w.prelude(cfg);
     let q = mkobj(&w, cfg);
     let g = Gate::new();
-    let body = if gated { Body::gated(&g) } else { Body::plain() };
+    let mut body = if gated { Body::gated(&g) } else { Body::plain() };
+    // (`selfwake`=1: the operation first wakes itself during its poll, like a cooperative yield, and then waits for the event)
+    body.self_wake = cfg.opt("selfwake", 0) == 1;
     let mut hs = vec![];
     let mut kept = None;
     let mut polled_once = None;
@@ -370,6 +374,23 @@ fn fs_cancel(cfg: &Cfg) {
                 0 => h.wait(),
                 1 => h.poll_then_drop(0),
                 2 => h.poll_then_drop(1),
+                4 => {
+                    // awaited to completion by reference (as select!/timeout wrappers do); the completed future is kept alive while
+                    // later operations are issued, and only then dropped
+                    let mut h = h;
+                    let mut f = h.fut.take().unwrap();
+                    let prev = rt::note("in:await-fs FS");
+                    let r = block_on(&mut f);
+                    rt::note(&prev);
+                    if r != Ok(h.token) {
+                        rt::violation("FUTURE-RESULT FS resolved to the wrong value".into());
+                    } else {
+                        h.rec.resolved(h.op);
+                    }
+                    w1.sync(&q1, "S-after-FS", Body::plain());
+                    w1.desync(&q1, "D-after-FS", Body::plain());
+                    drop(f);
+                }
                 _ => h.poll_then_drop(3),
             }
             // whatever happened to the future, a marker scheduled afterwards must run
@@ -378,7 +399,7 @@ fn fs_cancel(cfg: &Cfg) {
     }
     w.desync(&q, "M", Body::plain());
     g_ahead.open();
-    if mode == 0 {
+    if mode == 0 || mode == 4 {
         g.open();
     }
     for (i, h) in hs.into_iter().enumerate() {
@@ -616,6 +637,7 @@ fn drop_obj(cfg: &Cfg) {
     let st = o.st().clone();
     let g = Gate::new();
     let bg = BGate::new();
+    let mut pre_threads = vec![];
     match state {
         0 => {
             w.desync(&o, "D", Body::plain());
@@ -624,6 +646,15 @@ fn drop_obj(cfg: &Cfg) {
             w.desync(&o, "Dblk", Body::blocking(&bg));
         }
         2 => w.future_desync(&o, "FD", Body::gated(&g)).detach(),
+        5 => {
+            // a thread that does not own the Desync waits for a future operation's result with .sync(): with no free pool thread
+            // it runs the queue itself and parks inside the operation
+            let h = w.future_desync(&o, "FD", Body::gated(&g));
+            pre_threads.push(spawn(move || h.sync()));
+            // (the waiter is inside its sync before anything is dropped: a .sync() that only *starts* after a drop performed by an
+            // unwinding thread finds the queue marked Panicked by that thread's drain, which no listed property speaks about)
+            rt::quiesce();
+        }
         4 => {
             // the future is polled once by hand (the poll may run the operation up to its await), the event fires, and the
             // future is dropped without being polled again, possibly while another runner is inside the resumed operation
@@ -651,7 +682,24 @@ fn drop_obj(cfg: &Cfg) {
         }
     };
     let mut hs = vec![];
+    let mut panicking = vec![];
     let helper = w.raw();
+    /// runs the after-drop checks when it is dropped (declared before the owner, so dropped after it during unwinding)
+    struct AfterDrop {
+        rec: Arc<Rec>,
+        dop: OpId,
+        check: Option<Box<dyn FnOnce(&Rec) + Send>>,
+    }
+    impl Drop for AfterDrop {
+        fn drop(&mut self) {
+            self.rec.start(self.dop);
+            self.rec.end(self.dop, false);
+            self.rec.ret(self.dop);
+            if let Some(c) = self.check.take() {
+                c(&self.rec);
+            }
+        }
+    }
     match dropper {
         0 => {
             hs.push(spawn(move || {
@@ -662,6 +710,17 @@ fn drop_obj(cfg: &Cfg) {
                 rec.ret(dop);
                 check_after_drop(&rec);
             }));
+        }
+        3 => {
+            // the last owner is dropped by a thread that is unwinding from a panic
+            let t = vsched::thread::spawn(move || {
+                // (locals are dropped in reverse order while unwinding: the owner first, then the after-drop checks)
+                let dop = rec.inv("DROP", st.id, Kind::Drop);
+                let _after = AfterDrop { rec: rec.clone(), dop, check: Some(Box::new(check_after_drop)) };
+                let _owner = o;
+                panic!("PLANNED-PANIC in the thread that owns the last reference");
+            });
+            panicking.push(t);
         }
         1 => {
             // the Arc is moved into another object's job: a pool thread performs the drop
@@ -693,6 +752,12 @@ fn drop_obj(cfg: &Cfg) {
     g.open();
     for (i, h) in hs.into_iter().enumerate() {
         join(h, &format!("dropper{}", i));
+    }
+    for h in panicking {
+        let _ = h.join();
+    }
+    for (i, h) in pre_threads.into_iter().enumerate() {
+        join(h, &format!("waiter{}", i));
     }
     rt::quiesce();
     if pool == 0 {
